@@ -773,4 +773,74 @@ theorem bounds_prefix (ores size : Nat) :
         exact ⟨start, le_refl _, fun l => by simp⟩
 
 
+
+/-! ### error classes of convert_currency -/
+
+theorem mapM_error_first {α β} {f : α → Except Err β} {l : List α} {e : Err}
+    (h : l.mapM f = .error e) : ∃ x ∈ l, f x = .error e := by
+  induction l with
+  | nil => simp [List.mapM_nil, pure, Except.pure] at h
+  | cons x rest ih =>
+    rw [List.mapM_cons] at h
+    cases hx : f x with
+    | error e₁ =>
+      simp [hx, bind, Except.bind] at h
+      subst h; exact ⟨x, by simp, hx⟩
+    | ok b =>
+      cases hr : rest.mapM f with
+      | error e₂ =>
+        simp [hx, hr, bind, Except.bind] at h
+        subst h
+        obtain ⟨y, hy, hfy⟩ := ih hr
+        exact ⟨y, by simp [hy], hfy⟩
+      | ok bs => simp [hx, hr, bind, Except.bind, pure, Except.pure] at h
+
+open Generated.Currency in
+theorem convertCell_error {c : Cell} {rate : Num} {target : String} {e : Err}
+    (h : convertCell c rate target = .error e) :
+    e = .valueError ∨ (e = .typeError ∧ ∃ kv ∈ c.values, currencyFields.contains kv.1 = true ∧ kv.2 = .none) := by
+  unfold convertCell at h
+  cases hv : convertValues c.values rate with
+  | error e' =>
+    simp only [hv, bind, Except.bind, Except.error.injEq] at h
+    subst h
+    unfold convertValues at hv
+    obtain ⟨kv, hkv, hf⟩ := mapM_error_first hv
+    split at hf
+    · rename_i hc
+      cases hm : Val.mulNum kv.2 rate with
+      | ok v => simp [hm, Except.map] at hf
+      | error e'' =>
+        simp only [hm, Except.map, Except.error.injEq] at hf
+        subst hf
+        right
+        unfold Val.mulNum at hm
+        split at hm <;> cases hm
+        exact ⟨rfl, kv, hkv, hc, by assumption⟩
+    · cases hf
+  | ok vs =>
+    simp only [hv, bind, Except.bind] at h
+    unfold Cell.mk? at h
+    split at h
+    · cases h
+    · cases h; exact .inl rfl
+
+open Generated.Currency in
+theorem convertSlice_error {target : String} {rates : List (String × Num)} {sl : Metadata × List Cell}
+    {e : Err} (h : convertSlice target rates sl = .error e) :
+    e = .valueError ∨ (e = .typeError ∧ ∃ c ∈ sl.2, ∃ kv ∈ c.values,
+      currencyFields.contains kv.1 = true ∧ kv.2 = .none) := by
+  unfold convertSlice at h
+  split at h
+  · cases h; exact .inl rfl
+  · split at h
+    · cases h
+    · split at h
+      · cases h; exact .inl rfl
+      · obtain ⟨c, hc, hce⟩ := mapM_error_first h
+        rcases convertCell_error hce with h1 | ⟨h1, kv, hkv, h2⟩
+        · exact .inl h1
+        · exact .inr ⟨h1, c, hc, kv, hkv, h2⟩
+
+
 end Bermuda.Units
